@@ -87,6 +87,11 @@ func generate(seed uint64, prop string) simrt.Case {
 			cfg.Powers = append(cfg.Powers, []int64{1, 3, 3, 5, 10}[r.Intn(5)])
 		}
 	}
+	if prop == "C13" && r.Chance(1, 3) {
+		// equal powers whose sum is divisible by three: "exactly two thirds" exists
+		p := []int64{1, 3, 5}[r.Intn(3)]
+		cfg.Powers = []int64{p, p, p}
+	}
 	if prop == "C06" {
 		cfg.Replicas = 1
 		nblocks = 3 + r.Intn(3)
@@ -120,6 +125,13 @@ func generate(seed uint64, prop string) simrt.Case {
 			// peers knock at a replica's door
 			for i := 0; i < 1+r.Intn(3); i++ {
 				acts = append(acts, simrt.Action{K: "admit", N: r.Intn(cfg.Replicas), S: admitVariants[r.Intn(len(admitVariants))], A: int64(r.Intn(1 << 16))})
+			}
+		}
+		if adminProfile && b == 0 {
+			// the two contracts that forward their call data to the governance precompile (by STATICCALL, by CALL)
+			for _, rt := range []int64{9, 10} {
+				acts = append(acts, simrt.Action{K: "tx", S: "create", N: r.Intn(cfg.Accounts), A: rt, C: int64(ntx)})
+				ntx++
 			}
 		}
 		k := 0
@@ -176,6 +188,7 @@ type txInfo struct {
 	wellFormed bool // decodes and signature recovers
 	kvOK       bool
 	admin      *adminReq
+	rt         int // create: which runtime
 }
 
 type world struct {
@@ -196,6 +209,7 @@ type world struct {
 	// reference model
 	nonces          map[common.Address]uint64
 	contracts       []common.Address
+	contractRT      []int // runtime index of each deployed contract
 	sent            []*txInfo
 	kvRef           map[string][]string // key -> history of values
 	chain           []*types.Block
@@ -327,6 +341,7 @@ func (w *world) mkTx(a simrt.Action) *txInfo {
 		ti.raw = sign(etypes.NewTransaction(nonce, to, zero, gas, zero, nil), acct.key)
 	case "create":
 		rt := runtimes[int(a.A)%len(runtimes)]
+		ti.rt = int(a.A) % len(runtimes)
 		ti.raw = sign(etypes.NewContractCreation(nonce, zero, gas, zero, initCode(rt)), acct.key)
 	case "transfer-value", "create-value":
 		// every account of the simulated chain has balance 0: a transaction that carries value cannot be paid
@@ -695,6 +710,7 @@ func run(t *testing.T, prop string, c simrt.Case, out *simrt.Outcome, lg *simrt.
 				k := baseKind(ti.kind)
 				if k == "create" {
 					w.contracts = append(w.contracts, ethcrypto.CreateAddress(acct.addr, w.nonces[acct.addr]))
+					w.contractRT = append(w.contractRT, ti.rt)
 				}
 				w.nonces[acct.addr]++
 				if ti.kvOK {
